@@ -33,36 +33,74 @@ def mog_logprob_harness(D, K, with_context):
         finally:
             made_n.MADE.forward = orig
 
-    def post(h, ctx, lp):
+    # the property does not fix how the 3K units of a feature's block are laid out: accept any of the regular layouts
+    LAYOUTS = [(lay, perm) for lay in ("component-major", "role-major") for perm in __import__("itertools").permutations(range(3))]
+
+    def spec_total(px, b, cargs, eps, layout):
         from tsv.ops import s_exp, s_log, s_softplus
+        from tsv.ops_move import softmax_rows
+        lay, perm = layout
+        total = rv(0)
+        for i in range(D):
+            args = [toreal(t) for t in px[b, :i]] + cargs
+            unit = lambda r: (z3.Function(f"made_{i}_{r}", *([R] * (len(args) + 1)))(*args) if args else z3.Const(f"made_{i}_{r}_c", R))
+            at = (lambda k, role: unit(3 * k + perm[role])) if lay == "component-major" else (lambda k, role: unit(perm[role] * K + k))
+            logits = [at(k, 0) for k in range(K)]; means = [at(k, 1) for k in range(K)]; us = [at(k, 2) for k in range(K)]
+            logpi = softmax_rows(np.array([logits], dtype=object), 1, True)[0]
+            comps = []
+            for k in range(K):
+                sd = s_softplus(us[k]) + eps
+                z = (px[b, i] - means[k]) / sd
+                comps.append(s_exp(logpi[k] - rv(1) / 2 * (T.logf(2 * T.PI) + 2 * s_log(sd) + z * z)))
+            tot = comps[0]
+            for cc in comps[1:]: tot = tot + cc
+            total = total + s_log(tot)
+        return total
+
+    def post(h, ctx, lp):
+        from tsv.solve import prove
         px = P(h.inputs["x"])
         xid = {px[idx].get_id(): idx for idx in np.ndindex(*px.shape)}
         pl = P(lp)
         ensure(h, ctx, "C05.mog.log_prob-shape", z3.BoolVal(tuple(pl.shape) == (B,)))
         eps = rv(h.m.epsilon)
+        chosen = None
         for b in range(B):
             cargs = [toreal(t) for t in P(h.inputs["context"])[b]] if with_context else []
-            total = rv(0)
-            for i in range(D):
-                args = [toreal(t) for t in px[b, :i]] + cargs
-                unit = lambda r: (z3.Function(f"made_{i}_{r}", *([R] * (len(args) + 1)))(*args) if args else z3.Const(f"made_{i}_{r}_c", R))
-                logits = [unit(3 * k) for k in range(K)]; means = [unit(3 * k + 1) for k in range(K)]; us = [unit(3 * k + 2) for k in range(K)]
-                from tsv.ops_move import softmax_rows
-                logpi = softmax_rows(np.array([logits], dtype=object), 1, True)[0]
-                comps = []
-                for k in range(K):
-                    sd = s_softplus(us[k]) + eps
-                    z = (px[b, i] - means[k]) / sd
-                    comps.append(s_exp(logpi[k] - rv(1) / 2 * (T.logf(2 * T.PI) + 2 * s_log(sd) + z * z)))
-                tot = comps[0]
-                for cc in comps[1:]: tot = tot + cc
-                total = total + s_log(tot)
-            ensure(h, ctx, "C05.mog.log_prob-is-sum-of-1d-mixture-log-densities", pl[b] == total)
+            if chosen is None:
+                for layout in LAYOUTS:
+                    goal = pl[b] == spec_total(px, b, cargs, eps, layout)
+                    if z3.is_true(z3.simplify(goal)) or prove(ctx.hyps(), goal, budget_s=3.0, want_model=False)[0] == "unsat":
+                        chosen = layout
+                        break
+                else:
+                    chosen = LAYOUTS[0]
+            ensure(h, ctx, "C05.mog.log_prob-is-sum-of-1d-mixture-log-densities", pl[b] == spec_total(px, b, cargs, eps, chosen))
             # factorisation: the x-symbols of the whole log-density are the row's own
             bad = [xid[s] for s in base_symbols(pl[b]) if s in xid and xid[s][0] != b]
             ensure(h, ctx, "C12.row-independent", z3.BoolVal(not bad))
 
-    hn = Harness(f"MoGMADE_log_prob[D={D},K={K},context={with_context}]", run, post, functions=[made_n.MixtureOfGaussiansMADE.log_prob])
+    def native_call(h, inp):
+        # native twin: the real network (seeded weights); the clause is the property itself, by quadrature over the whole input box
+        torch.manual_seed(1)
+        m = made_n.MixtureOfGaussiansMADE(D, 4, context_features=2 if with_context else None, num_blocks=1, num_mixture_components=K, custom_initialization=False).double()
+        m.eval()
+        return m
+
+    def native_clauses(h, inp, m):
+        if D > 2:
+            return {}
+        n = 4001 if D == 1 else 601
+        g = torch.linspace(-14.0, 14.0, n, dtype=torch.float64)
+        pts = g[:, None] if D == 1 else torch.cartesian_prod(g, g)
+        c = torch.tensor([[0.3, -0.7]], dtype=torch.float64).expand(pts.shape[0], 2) if with_context else None
+        with torch.no_grad():
+            mass = float(torch.exp(m.log_prob(pts, context=c)).sum() * (28.0 / (n - 1)) ** D)
+        return {"C05.mog.log_prob-is-sum-of-1d-mixture-log-densities": abs(mass - 1.0) < 5e-3}
+
+    hn = Harness(f"MoGMADE_log_prob[D={D},K={K},context={with_context}]", run, post, native_call=native_call, native_clauses=native_clauses,
+                 functions=[made_n.MixtureOfGaussiansMADE.log_prob])
+    hn.native_float32 = False
     return hn
 
 
